@@ -643,3 +643,283 @@ impl<'a> RequestExecutionParams<'a> {
         last_error.map(Result::Err)
     }
 }
+
+/// Verification hooks (only with `--cfg scylla_verif`): runs the crate-private
+/// [`RequestExecutionParams::run_request_no_side_effects`] -- and through it the real
+/// `run_request_speculative_fiber` loop -- over scripted targets: target `i` of the plan is the
+/// number `i`; every loop iteration consumes one scripted [`Outcome`](verif_hooks::Outcome)
+/// (connection acquisition fails / the attempt succeeds / the attempt fails with an error).
+/// No frame is sent: all targets share one idle connection object.
+#[cfg(scylla_verif)]
+#[allow(missing_docs)]
+pub mod verif_hooks {
+    use super::*;
+    use crate::errors::ConnectionError;
+    use crate::frame::response::NonErrorResponseWithDeserializedMetadataV2;
+    use crate::policies::load_balancing::DefaultPolicy;
+    use std::collections::VecDeque;
+    use std::sync::Mutex;
+
+    pub enum Outcome {
+        ConnFail,
+        Success,
+        Error(RequestAttemptError),
+    }
+
+    #[derive(Debug, Clone, PartialEq, Eq)]
+    pub enum Event {
+        /// `get_connection()` of target `.0` failed
+        ConnFail(usize),
+        /// `run_request_once` was called for target `.0` with consistency `.1`; `.2` = it succeeded
+        Attempt(usize, Consistency, bool),
+    }
+
+    #[derive(Debug)]
+    pub enum FiberResult {
+        Completed(usize),
+        IgnoredWriteError(usize),
+        Failed(RequestError),
+        /// the script ran out while the loop was still running
+        Pending,
+    }
+
+    pub struct IdleConnection {
+        connection: Arc<Connection>,
+        _error_receiver: tokio::sync::oneshot::Receiver<ConnectionError>,
+    }
+
+    pub async fn idle_connection(addr: SocketAddr) -> Result<IdleConnection, ConnectionError> {
+        let (connection, _error_receiver) =
+            crate::network::verif_idle_connection_hooks::idle_connection(addr).await?;
+        Ok(IdleConnection {
+            connection,
+            _error_receiver,
+        })
+    }
+
+    struct Script {
+        outcomes: VecDeque<Outcome>,
+        events: Vec<Event>,
+        current_target: usize,
+    }
+
+    struct ScriptedTarget<'s> {
+        id: usize,
+        script: &'s Mutex<Script>,
+        connection: &'s Arc<Connection>,
+    }
+
+    impl AttemptTarget for ScriptedTarget<'_> {
+        type Coordinator = usize;
+
+        async fn get_connection(&self) -> Result<Arc<Connection>, ConnectionPoolError> {
+            let available = {
+                let mut script = self.script.lock().unwrap();
+                match script.outcomes.front() {
+                    None => None,
+                    Some(Outcome::ConnFail) => {
+                        script.outcomes.pop_front();
+                        script.events.push(Event::ConnFail(self.id));
+                        Some(false)
+                    }
+                    Some(_) => {
+                        script.current_target = self.id;
+                        Some(true)
+                    }
+                }
+            };
+            match available {
+                None => std::future::pending().await,
+                Some(false) => Err(ConnectionPoolError::Initializing),
+                Some(true) => Ok(Arc::clone(self.connection)),
+            }
+        }
+
+        fn coordinator(&self, _connection: &Arc<Connection>) -> usize {
+            self.id
+        }
+
+        fn on_attempt_success(
+            &self,
+            _load_balancing_policy: &dyn LoadBalancingPolicy,
+            _routing_info: &RoutingInfo<'_>,
+            _elapsed: Duration,
+        ) {
+        }
+
+        fn on_attempt_failure(
+            &self,
+            _load_balancing_policy: &dyn LoadBalancingPolicy,
+            _routing_info: &RoutingInfo<'_>,
+            _elapsed: Duration,
+            _error: &RequestAttemptError,
+        ) {
+        }
+    }
+
+    /// Polls the request once: everything scripted is immediately ready, so a pending future
+    /// means the script is exhausted.
+    pub fn run_scripted_request(
+        connection: &IdleConnection,
+        retry_policy: &dyn RetryPolicy,
+        is_idempotent: bool,
+        consistency: Consistency,
+        plan_len: usize,
+        outcomes: Vec<Outcome>,
+    ) -> (Vec<Event>, FiberResult) {
+        use futures::FutureExt;
+
+        let script = Mutex::new(Script {
+            outcomes: outcomes.into(),
+            events: Vec::new(),
+            current_target: usize::MAX,
+        });
+        let load_balancing_policy = DefaultPolicy::default();
+        let routing_info = RoutingInfo::default();
+        let request_span = RequestSpan::new_query("");
+        let params = RequestExecutionParams {
+            is_idempotent,
+            consistency,
+            serial_consistency: None,
+            retry_policy,
+            load_balancing_policy: &load_balancing_policy,
+            metrics_and_speculative_policy: None,
+            request_timeout: None,
+            history_listener: None,
+            request_kind: RequestPaging::Unpaged,
+        };
+        let plan = (0..plan_len).map(|id| ScriptedTarget {
+            id,
+            script: &script,
+            connection: &connection.connection,
+        });
+        let run_request_once = |_connection: Arc<Connection>, consistency: Consistency| {
+            let script = &script;
+            async move {
+                let mut script = script.lock().unwrap();
+                let target = script.current_target;
+                match script.outcomes.pop_front() {
+                    Some(Outcome::Success) => {
+                        script.events.push(Event::Attempt(target, consistency, true));
+                        Ok(NonErrorQueryResponse {
+                            response: NonErrorResponseWithDeserializedMetadataV2::Ready,
+                            tracing_id: None,
+                            warnings: Vec::new(),
+                        })
+                    }
+                    Some(Outcome::Error(e)) => {
+                        script.events.push(Event::Attempt(target, consistency, false));
+                        Err(e)
+                    }
+                    Some(Outcome::ConnFail) | None => {
+                        panic!("verif script: attempt without a preceding get_connection")
+                    }
+                }
+            }
+        };
+        let result = params
+            .run_request_no_side_effects(&routing_info, plan, run_request_once, &request_span)
+            .now_or_never();
+        let result = match result {
+            None => FiberResult::Pending,
+            Some(Ok(RequestExecutionOutcome {
+                result: RunRequestResult::Completed(_),
+                coordinator,
+            })) => FiberResult::Completed(coordinator),
+            Some(Ok(RequestExecutionOutcome {
+                result: RunRequestResult::IgnoredWriteError,
+                coordinator,
+            })) => FiberResult::IgnoredWriteError(coordinator),
+            Some(Err(e)) => FiberResult::Failed(e),
+        };
+        let events = std::mem::take(&mut script.lock().unwrap().events);
+        (events, result)
+    }
+}
+
+/// Verification hooks (only with `--cfg scylla_verif`): runs the crate-private
+/// `run_request_no_side_effects` (idempotence gate, shared plan, fibers) over a plan of
+/// synthetic targets that have no node behind them.
+#[cfg(scylla_verif)]
+#[allow(missing_docs)]
+pub mod verif_hooks_speculative {
+    use super::*;
+
+    /// A plan target without a node: `get_connection` reports that an attempt on this target
+    /// begins, waits `delay`, reports that it ends and fails with a pool error, so that the
+    /// fiber moves on to the next target of the plan.
+    pub struct ProbeTarget {
+        pub id: u32,
+        pub delay: Duration,
+        pub on_event: Arc<dyn Fn(u32, bool) + Send + Sync>,
+    }
+
+    impl AttemptTarget for ProbeTarget {
+        type Coordinator = ();
+
+        async fn get_connection(&self) -> Result<Arc<Connection>, ConnectionPoolError> {
+            (self.on_event)(self.id, true);
+            if !self.delay.is_zero() {
+                tokio::time::sleep(self.delay).await;
+            }
+            (self.on_event)(self.id, false);
+            Err(ConnectionPoolError::Initializing)
+        }
+
+        fn coordinator(&self, _connection: &Arc<Connection>) {}
+
+        fn on_attempt_success(
+            &self,
+            _load_balancing_policy: &dyn LoadBalancingPolicy,
+            _routing_info: &RoutingInfo<'_>,
+            _elapsed: Duration,
+        ) {
+        }
+
+        fn on_attempt_failure(
+            &self,
+            _load_balancing_policy: &dyn LoadBalancingPolicy,
+            _routing_info: &RoutingInfo<'_>,
+            _elapsed: Duration,
+            _error: &RequestAttemptError,
+        ) {
+        }
+    }
+
+    /// `metrics_and_speculative_policy` is `None` if `!with_metrics`, else
+    /// `Some((metrics, speculative_policy))`.
+    pub async fn run_probe_plan(
+        is_idempotent: bool,
+        with_metrics: bool,
+        speculative_policy: Option<&dyn SpeculativeExecutionPolicy>,
+        plan: Vec<ProbeTarget>,
+    ) -> Result<(), RequestError> {
+        let retry_policy = crate::policies::retry::FallthroughRetryPolicy::new();
+        let load_balancing_policy = load_balancing::DefaultPolicy::default();
+        let metrics = Arc::new(Metrics::new());
+        let params = RequestExecutionParams {
+            is_idempotent,
+            consistency: Consistency::default(),
+            serial_consistency: None,
+            retry_policy: &retry_policy,
+            load_balancing_policy: &load_balancing_policy,
+            metrics_and_speculative_policy: with_metrics.then_some((&metrics, speculative_policy)),
+            request_timeout: None,
+            history_listener: None,
+            request_kind: RequestPaging::Unpaged,
+        };
+        let routing_info = RoutingInfo::default();
+        let request_span = RequestSpan::new_query("");
+        params
+            .run_request_no_side_effects(
+                &routing_info,
+                plan.into_iter(),
+                |_connection: Arc<Connection>, _consistency: Consistency| async {
+                    Err::<NonErrorQueryResponse, _>(RequestAttemptError::UnableToAllocStreamId)
+                },
+                &request_span,
+            )
+            .await
+            .map(|_| ())
+    }
+}
